@@ -8,6 +8,7 @@ import RedisGoModel.Driver.Wal
 import RedisGoModel.Driver.Codec
 import RedisGoModel.Driver.Rendezvous
 import RedisGoModel.Driver.Ready
+import RedisGoModel.Driver.Multi
 /-! Correspondence driver: reads one observed operation per line on stdin, recomputes it with the model, prints
     `MISMATCH <lineno> <detail>` for every disagreement and a final `SUMMARY` line.  Each engine recognises its own line tags. -/
 open Driver
@@ -22,6 +23,7 @@ structure St where
   ap : ApplySt := {}
   wal : WalSt := {}
   rz : RzSt := {}
+  mz : MzSt := {}
 
 /-- try the engines in turn; the first that recognises the line judges it -/
 def judge (st : St) (fs : List String) : St × Option (Except String Bool) :=
@@ -39,6 +41,9 @@ def judge (st : St) (fs : List String) : St × Option (Except String Bool) :=
   if v.isSome then (st, v) else
   let (rz', v) := rendezvousLine st.rz fs
   let st := { st with rz := rz' }
+  if v.isSome then (st, v) else
+  let (mz', v) := multiLine st.mz fs
+  let st := { st with mz := mz' }
   if v.isSome then (st, v) else
   (st, (((readyLine fs).orElse fun _ => codecLine fs).orElse fun _ => globLine fs).orElse fun _ => parserLine fs)
 
